@@ -2,6 +2,8 @@ use crossbeam_channel::{self, Sender, Receiver, select};
 
 use std::time::{Instant, Duration};
 use std::collections::{BTreeMap};
+use std::sync::{Arc};
+use std::sync::atomic::{AtomicUsize, Ordering};
 
 /// As a shortcut, it returns the sender and receiver queue as a tuple.
 ///
@@ -24,7 +26,7 @@ pub fn split<E: Send + 'static>() -> (EventSender<E>, EventReceiver<E>) {
 /// An ID that represents a timer scheduled.
 /// It can be used to cancel the event.
 #[derive(Clone, Copy, Debug, PartialEq, Eq, Hash)]
-pub struct TimerId(Instant);
+pub struct TimerId(Instant, usize);
 
 // Internal enum to enqueue different timer commands in a single queue
 enum TimerCommand<E> {
@@ -39,9 +41,9 @@ enum TimerCommand<E> {
 pub struct EventReceiver<E> {
     event_sender: EventSender<E>, // Should be before receiver in order to drop first.
     receiver: Receiver<E>,
-    timer_receiver: Receiver<(Instant, TimerCommand<E>)>,
+    timer_receiver: Receiver<(TimerId, TimerCommand<E>)>,
     priority_receiver: Receiver<E>,
-    timers: BTreeMap<Instant, E>,
+    timers: BTreeMap<(Instant, usize), E>,
 }
 
 impl<E> Default for EventReceiver<E>
@@ -53,7 +55,12 @@ where E: Send + 'static
         let (timer_sender, timer_receiver) = crossbeam_channel::unbounded();
         let (priority_sender, priority_receiver) = crossbeam_channel::unbounded();
         EventReceiver {
-            event_sender: EventSender::new(sender, timer_sender, priority_sender),
+            event_sender: EventSender::new(
+                sender,
+                timer_sender,
+                priority_sender,
+                Arc::new(AtomicUsize::new(0)),
+            ),
             receiver,
             timer_receiver,
             priority_receiver,
@@ -75,8 +82,8 @@ where E: Send + 'static
     fn enque_timers(&mut self) {
         for timer in self.timer_receiver.try_iter() {
             match timer.1 {
-                TimerCommand::Create(e) => self.timers.insert(timer.0, e),
-                TimerCommand::Cancel => self.timers.remove(&timer.0),
+                TimerCommand::Create(e) => self.timers.insert((timer.0 .0, timer.0 .1), e),
+                TimerCommand::Cancel => self.timers.remove(&(timer.0 .0, timer.0 .1)),
             };
         }
     }
@@ -98,14 +105,14 @@ where E: Send + 'static
         }
         else {
             let next_instant = *self.timers.iter().next().unwrap().0;
-            if next_instant <= Instant::now() {
+            if next_instant.0 <= Instant::now() {
                 self.timers.remove(&next_instant).unwrap()
             }
             else {
                 select! {
                     recv(self.receiver) -> event => event.unwrap(),
                     recv(self.priority_receiver) -> event => event.unwrap(),
-                    recv(crossbeam_channel::at(next_instant)) -> _ => {
+                    recv(crossbeam_channel::at(next_instant.0)) -> _ => {
                         self.timers.remove(&next_instant).unwrap()
                     }
                 }
@@ -130,14 +137,14 @@ where E: Send + 'static
         }
         else {
             let next_instant = *self.timers.iter().next().unwrap().0;
-            if next_instant <= Instant::now() {
+            if next_instant.0 <= Instant::now() {
                 self.timers.remove(&next_instant)
             }
             else {
                 select! {
                     recv(self.receiver) -> event => Some(event.unwrap()),
                     recv(self.priority_receiver) -> event => Some(event.unwrap()),
-                    recv(crossbeam_channel::at(next_instant)) -> _ => {
+                    recv(crossbeam_channel::at(next_instant.0)) -> _ => {
                         self.timers.remove(&next_instant)
                     }
                     default(timeout) => None
@@ -156,7 +163,7 @@ where E: Send + 'static
         }
 
         if let Some(next_instant) = self.timers.iter().next() {
-            if *next_instant.0 <= Instant::now() {
+            if next_instant.0 .0 <= Instant::now() {
                 let instant = *next_instant.0;
                 return self.timers.remove(&instant);
             }
@@ -170,8 +177,9 @@ where E: Send + 'static
 /// This type can only be generated by the receiver `EventReceiver`.
 pub struct EventSender<E> {
     sender: Sender<E>,
-    timer_sender: Sender<(Instant, TimerCommand<E>)>,
+    timer_sender: Sender<(TimerId, TimerCommand<E>)>,
     priority_sender: Sender<E>,
+    timer_sequence: Arc<AtomicUsize>, // Makes unique the ids of timers that fall on the same instant
 }
 
 impl<E> EventSender<E>
@@ -179,10 +187,11 @@ where E: Send + 'static
 {
     fn new(
         sender: Sender<E>,
-        timer_sender: Sender<(Instant, TimerCommand<E>)>,
+        timer_sender: Sender<(TimerId, TimerCommand<E>)>,
         priority_sender: Sender<E>,
+        timer_sequence: Arc<AtomicUsize>,
     ) -> EventSender<E> {
-        EventSender { sender, timer_sender, priority_sender }
+        EventSender { sender, timer_sender, priority_sender, timer_sequence }
     }
 
     /// Send instantly an event to the event queue.
@@ -203,14 +212,15 @@ where E: Send + 'static
     /// [`EventSender::cancel_timer()`] be called.
     pub fn send_with_timer(&self, event: E, duration: Duration) -> TimerId {
         let when = Instant::now() + duration;
-        self.timer_sender.send((when, TimerCommand::Create(event))).ok();
-        TimerId(when)
+        let timer_id = TimerId(when, self.timer_sequence.fetch_add(1, Ordering::Relaxed));
+        self.timer_sender.send((timer_id, TimerCommand::Create(event))).ok();
+        timer_id
     }
 
     /// Remove a timer previously sent by [`EventSender::send_with_timer()`].
     /// The timer will not be receive by the [`EventReceiver`].
     pub fn cancel_timer(&self, timer_id: TimerId) {
-        self.timer_sender.send((timer_id.0, TimerCommand::Cancel)).ok();
+        self.timer_sender.send((timer_id, TimerCommand::Cancel)).ok();
     }
 }
 
@@ -222,6 +232,7 @@ where E: Send + 'static
             self.sender.clone(),
             self.timer_sender.clone(),
             self.priority_sender.clone(),
+            self.timer_sequence.clone(),
         )
     }
 }
